@@ -122,7 +122,10 @@ pub fn run(args: &Args) {
             hdr.insert("azimuth_resolution_spacing".into(), vec![raw as u8]);
             hdr.insert("azimuth_indexing_mode".into(), vec![(raw * 3 % 256) as u8]);
             hdr.insert("radial_length".into(), (r16 as u16).to_be_bytes().to_vec());
-            let bytes = build_message(&l, &hdr, &[vol, refl], &[0, 1]);
+            let mut rad = random_block(&l, &mut rng, "RAD", 0, 8, 0);
+            rad.rec.insert("unambiguous_range".into(), (r16 as u16).to_be_bytes().to_vec());
+            rad.rec.insert("nyquist_velocity".into(), ((r16 ^ 0x1234) as u16).to_be_bytes().to_vec());
+            let bytes = build_message(&l, &hdr, &[vol, refl, rad], &[0, 1, 2]);
             let m = match decode_digital_radar_data(&mut Cursor::new(&bytes)) { Ok(m) => m, Err(_) => continue };
             res.case(fnv(&bytes) ^ 0x5CA1ED, true);
             let (g, v) = match (m.reflectivity_data_block.as_ref(), m.volume_data_block.as_ref()) { (Some(g), Some(v)) => (g, v), _ => continue };
@@ -139,6 +142,10 @@ pub fn run(args: &Args) {
                 scaled.entry("gen_moment_size_x8").or_default().push((g.header.number_of_data_moment_gates as i64 * g.header.data_word_size as i64, (g.header.moment_size().get::<uom::si::information::byte>() * 8.0).round() as i64));
                 scaled.entry("hdr_azimuth_resolution_spacing").or_default().push((h.azimuth_resolution_spacing as i64, deg(h.azimuth_resolution_spacing(), 2.0)));
                 scaled.entry("hdr_azimuth_indexing_mode").or_default().push((h.azimuth_indexing_mode as i64, h.azimuth_indexing_mode().map(|a| deg(a, 100.0)).unwrap_or(-1)));
+                if let Some(rd) = m.radial_data_block.as_ref() {
+                    scaled.entry("rad_nyquist_velocity").or_default().push((rd.nyquist_velocity as i64, (rd.nyquist_velocity().get::<uom::si::velocity::meter_per_second>() * 100.0).round() as i64));
+                    scaled.entry("rad_unambiguous_range").or_default().push((rd.unambiguous_range as i64, km(rd.unambiguous_range()) / 1000));
+                }
                 scaled.entry("hdr_radial_length").or_default().push((h.radial_length as i64, h.radial_length().get::<uom::si::information::byte>().round() as i64));
             });
         }
